@@ -8,6 +8,9 @@
    correspondence only. *)
 From XcpModel Require Import Base Backup Paths Walker Main.
 From XcpProofs Require Import MainProofs.
+From XcpModel Require Import Extracted.
+From XcpProofs Require Import PinnedSource.
+From XcpPins Require Import Pin_main_main Pin_main_expand_globs Pin_main_opts_check Pin_common_is_same_file.
 
 (* every class of invalid invocation is rejected by the validation block, for
    every position of the offending source among valid ones and every
@@ -58,8 +61,23 @@ Example C16_nonvacuous :
            [parse_path [97]; parse_path [109]] (parse_path [100]) = Some E_MISSING.     (* xcp -r a m d *)
 Proof. vm_compute. reflexivity. Qed.
 
+(* ---- the glue functions this property's hand-written model mirrors are, token for token, the ones it was
+   validated against (an edit re-opens the obligation; harness/repin.py re-pins after re-validation) ---- *)
+Theorem C16_src_pin_main_main : pin_unchanged name_main_main.
+Proof. exact pin_main_main. Qed.
+Theorem C16_src_pin_main_expand_globs : pin_unchanged name_main_expand_globs.
+Proof. exact pin_main_expand_globs. Qed.
+Theorem C16_src_pin_main_opts_check : pin_unchanged name_main_opts_check.
+Proof. exact pin_main_opts_check. Qed.
+Theorem C16_src_pin_common_is_same_file : pin_unchanged name_common_is_same_file.
+Proof. exact pin_common_is_same_file. Qed.
+
 Print Assumptions C16_invalid_rejected.
 Print Assumptions C16_validated_sound.
 Print Assumptions C16_force_noclobber_conflict.
 Print Assumptions C16_glob_rejects.
 Print Assumptions C16_reject_no_actions.
+Print Assumptions C16_src_pin_main_main.
+Print Assumptions C16_src_pin_main_expand_globs.
+Print Assumptions C16_src_pin_main_opts_check.
+Print Assumptions C16_src_pin_common_is_same_file.
